@@ -63,6 +63,8 @@ def gen_op(rng, in_parent=False):
     if r < 0.55:
         return ("aw", rng.choice(VALS))
     if r < 0.70:
+        if not in_parent and rng.random() < 0.6:
+            return ("at", rng.choice(THROWN), rng.choice(mp.ATHROW_FORMS))
         return ("at", rng.choice(THROWN))
     if r < 0.78:
         return ("ac",)
@@ -179,7 +181,12 @@ class Real:
         self.mod = mod
         self.OOBData = mod.OOBData
         self.M = [mod.Monitor() for _ in range(4)]
-        self.logs = [[] for _ in progs]
+        self.logs = [mp.Log() for _ in progs]
+        self.arrived = []       # exception objects as they arrive at the body's suspension point
+        self.athrow_bad = None
+        self.acts = []
+        self.last_exc = None
+        self.given = None
         self.olog = []
         self.keep = []
         self.mode = mode
@@ -205,10 +212,16 @@ class Real:
     def make_tok(self):
         olog = self.olog
         if self.mode == "raw":
+            arrived = self.arrived
+
             @types.coroutine
             def tok(t):
                 olog.append(("susp", t))
-                x = yield t
+                try:
+                    x = yield t
+                except BaseException as e:  # noqa: BLE001
+                    arrived.append(e)
+                    raise
                 return x
         elif self.mode == "task":
             async def tok(t):
@@ -234,6 +247,7 @@ class Real:
             try:
                 x = await M[m].oob(d)
             except BaseException as e:
+                self.arrived.append(e)
                 olog.append(("oobexc", m, mp.canon_exc(e)))
                 raise
             olog.append(("oobret", m, mp.cv(x)))
@@ -268,6 +282,19 @@ class Real:
         mon = self.M[m]
         k = op[0]
         val = lambda v: None if v == 0 else v  # noqa: E731
+        if k == "at" and len(op) > 2:
+            # two/three-argument forms: athrow(type, value[, traceback])
+            tb = mp.make_tb()
+            args, inst, cls, eargs = mp.athrow_args(op, tb)
+            self.given = {"inst": inst, "cls": cls, "args": eargs, "tb": tb if op[2].endswith("+t") else None}
+            if fl == "u":
+                c = mon.athrow(coro, *args)
+            else:
+                bm = mon(coro)
+                self.keep.append(bm)
+                c = bm.athrow(*args)
+            self.keep += [c, args, tb]
+            return c
         if fl == "u":
             if k == "aw":
                 c = mon.aawait(coro, val(op[1]))
@@ -317,6 +344,7 @@ class Real:
             self.olog.append(("got", m, mp.cv(e.data), self.M[m].state))
             out = f"exc OOBData:{mp.cv(e.data)}"
         except BaseException as e:  # noqa: BLE001
+            self.last_exc = e
             self.olog.append(("exc", m, mp.canon_exc(e), self.M[m].state))
             out = f"exc {mp.canon_exc(e)}"
         else:
@@ -328,11 +356,45 @@ class Real:
     def call(self, m, fl, op):
         self.olog.append(("act", "call", op))
         self.olog.append(("drv", m, op, self.M[m].state, corostate(self.top)))
+        self.acts.append((m, fl, op))
+        before, st0, n0 = corostate(self.top), self.M[m].state, len(self.arrived)
+        self.given = None
+        self.last_exc = None
         c = self.mkcall(m, self.top, op, fl)
         out, pend = self.advance(m, c, lambda: c.send(None))
         if pend:
             self.pending = (m, c)
+        if self.given is not None and st0 == 0 and self.athrow_bad is None:
+            self.athrow_bad = self.check_athrow(op, before, n0, out)
         return self.snapshot(out)
+
+    def check_athrow(self, op, before, n0, out):
+        """`an exception given to athrow() is raised from it`: what arrives at the suspended body (or, for a
+        never-started coroutine, what comes out) is what coro.throw(type, value, tb) raises."""
+        g = self.given
+        if before == "susp":
+            if len(self.arrived) <= n0:
+                return ("athrow-not-delivered", f"{g['cls'].__name__}{g['args']} raised at the suspension point", out)
+            e = self.arrived[n0]
+        elif before == "new":
+            e = self.last_exc
+            if e is None:
+                return ("athrow-not-delivered", f"{g['cls'].__name__}{g['args']} out of athrow()", out)
+        else:
+            return None
+        if g["cls"] is GeneratorExit:
+            # PEP 380 delivers GeneratorExit to the frames below the coroutine's own with close(): a fresh
+            # GeneratorExit() arrives there; only the type is the caller's
+            return None if isinstance(e, GeneratorExit) else ("athrow-exception-identity", "GeneratorExit", type(e).__name__)
+        want = f"{g['cls'].__name__}{g['args']}" + (" (the given instance)" if g["inst"] is not None else "")
+        got = f"{type(e).__name__}{e.args}"
+        if g["inst"] is not None and e is not g["inst"]:
+            return ("athrow-exception-identity", want, got + " (another object)")
+        if type(e) is not g["cls"] or e.args != g["args"]:
+            return ("athrow-exception-identity", want, got)
+        if g["tb"] is not None and not mp.tb_contains(e, g["tb"]):
+            return ("athrow-traceback", "given traceback kept", "traceback lost")
+        return None
 
     def resume(self, kind, arg=None):
         m, c = self.pending
@@ -385,12 +447,11 @@ def run_raw(case):
     return lines, outs, real
 
 
-def run_mode(case, lines, mode):
+def run_mode(case, lines, mode, acts):
     """Re-run the executed raw trace inside a Task / through await_sync.  Only for traces whose
     responses to real suspensions are all `send`.  Returns the per-call outputs."""
     responses = [int(ln.split()[1]) for ln in lines if ln.startswith("send ")]
     real = Real(case["progs"], mode, responses)
-    calls = [ln for ln in lines if ln.startswith("call ")]
     outs = []
 
     def parse(ln):
@@ -418,8 +479,7 @@ def run_mode(case, lines, mode):
 
     if mode == "task":
         async def main():
-            for ln in calls:
-                m, fl, op = parse(ln)
+            for m, fl, op in acts:
                 out = await asyncio.get_running_loop().create_task(one(m, fl, op))
                 outs.append(real.snapshot(out))
         loop = asyncio.new_event_loop()
@@ -429,8 +489,7 @@ def run_mode(case, lines, mode):
             loop.close()
     else:
         import asynkit
-        for ln in calls:
-            m, fl, op = parse(ln)
+        for m, fl, op in acts:
             out = asynkit.await_sync(one(m, fl, op))
             outs.append(real.snapshot(out))
     return outs, real
@@ -481,7 +540,8 @@ def oracle(olog, tags):
                 elif op[0] == "ac":
                     exp = ("oobexc", m, "GeneratorExit")
                 else:
-                    exp = ("oobexc", m, {"GE": "GeneratorExit", "CE": "CancelledError", "RT": "RuntimeError"}.get(op[1], op[1]))
+                    eff = mp.athrow_effective(op)
+                    exp = ("oobexc", m, {"GE": "GeneratorExit", "CE": "CancelledError", "RT": "RuntimeError"}.get(eff, eff))
                 tags.add("reply-value" if exp[0] == "oobret" else "reply-exception")
                 if nxt[:3] != exp:
                     return "oob-reply", i, exp, nxt
@@ -614,6 +674,12 @@ def judge(case):
     situation_tags(case, lines, outs, real.olog, tags)
     if bad is not None:
         bad = bad + (real.olog[max(0, bad[1] - 3): bad[1] + 2],)
+    elif real.athrow_bad is not None:
+        ab = real.athrow_bad
+        bad = (ab[0], 0, ab[1], ab[2], [])
+    for m_, fl_, op_ in real.acts:
+        if op_[0] == "at" and len(op_) > 2:
+            tags.add("athrow-form-" + op_[2])
     # Task / await_sync driving must agree with raw driving of the same trace
     mode_bad = None
     body_oob = any(ev[0] == "bodyexc" and str(ev[2]).startswith("OOBData") for ev in real.olog)
@@ -628,7 +694,7 @@ def judge(case):
             want = [o for ln, o in zip(lines, outs) if not o.startswith("pend")]
             # outputs of calls: in raw mode a call's final output is on its last resume line
             for mode in ("task", "sync"):
-                got, r2 = run_mode(case, lines, mode)
+                got, r2 = run_mode(case, lines, mode, real.acts)
                 tags.add("driven-by-" + mode)
                 if got != want:
                     mode_bad = ("mode-" + mode, 0, want, got, [])
@@ -767,6 +833,7 @@ THEOREM_OF = {
     "real-yield-passthrough": "oob_exactly_once_in_order", "oob-refused": "oob_refused_when_inactive",
     "start-result": "start_consistent", "aclose-finished": "aclose_consistent",
     "mode-task": "oob_exactly_once_in_order", "mode-sync": "oob_exactly_once_in_order",
+    "athrow-exception-identity": "oob_reply", "athrow-not-delivered": "oob_reply", "athrow-traceback": "oob_reply",
 }
 
 
